@@ -59,12 +59,10 @@ class Repartition(Expr):
             new_partitions = self.operand("new_partitions")
             if isinstance(new_partitions, Callable):
                 new_partitions = new_partitions(self.frame.npartitions)
-            if (
-                new_partitions > self.frame.npartitions
-                and self.frame.known_divisions
-            ):
+            if new_partitions > self.frame.npartitions:
                 # Interpolated divisions are de-duplicated, we can end up
-                # with fewer partitions than requested
+                # with fewer partitions than requested (the divisions of the
+                # input may only become known when it is lowered)
                 return len(self.divisions) - 1
             return new_partitions
         return super().npartitions
